@@ -64,7 +64,7 @@ def obligations(tier, seed):
         sk("rollup_top_clamp", "S_RU4;S_PAC(2,0);S_TXA;S_CR;S_TXA;S_CR"),
         sk("rollup_midrow_edm", "S_RU2;S_TXA;S_MRX;S_EDM;S_TXS"),
         sk("rollup_dup_badpar", "S_RU2;S_RU2;S_TXA;S_CR;S_CR;S_TXA;S_MISCBAD(0x2D);S_TXS"),
-        sk("rollup_datax", "S_RU3;S_LIT(0x41,0x42);S_DATAX;S_TXA;S_TXS"),
+        sk("popon_datax", "S_RCL;S_PAC(7,0);S_LIT(0x41,0x42);S_DATAX;S_TXA;S_EOC"),
         # paint-on
         sk("painton_basic", "S_RDC;S_PACC(7);S_LIT(0x41,0x20);S_TXA;S_MR(5)"),
         sk("painton_midrow", "S_RDC;S_PAC(7,0);S_TXA;S_MRX;S_TXS"),
@@ -82,10 +82,23 @@ def obligations(tier, seed):
         sk("cc4_popon", "S_RCL;S_PAC(11,0x18);S_TXA;S_EOC", ch=3, LINE_NO=335),
         sk("fbit_rollup", "S_RU2;S_TXA;S_CR;S_BS;S_TXA", CTRL_F=1),
     ]
+    seqs_t = [
+        sk("t_rollup_datax", "S_RU3;S_LIT(0x41,0x42);S_DATAX;S_TXA;S_TXS"),
+        sk("t_popon_pacx_r1", "S_RCL;S_PACX(2);S_TXA;S_CH;S_EOC"),
+        sk("t_popon_pacx_r15", "S_RCL;S_PACX(9);S_TXA;S_CH;S_EOC"),
+        sk("t_painton_pacx_r11", "S_RDC;S_PACX(0);S_TXA;S_TXS"),
+        sk("t_rollup_pacc", "S_RU3;S_PACC(12);S_TXA;S_CR;S_TXA"),
+        sk("t_rollup4_long", "S_RU4;S_TXA;S_CR;S_TXA;S_CR;S_TXA;S_CR;S_TXA;S_CR;S_TXA"),
+        sk("t_popon_three", "S_RCL;S_PAC(8,0);S_TXA;S_PAC(10,0x14);S_TXA;S_PAC(12,3);S_TXA;S_EOC;S_EDM"),
+        sk("t_text_scroll", "S_TR;S_TXA;S_CR;S_CR;S_CR;S_CR;S_CR;S_CR;S_CR;S_CR;S_CR;S_CR;S_CR;S_CR;S_CR;S_CR;S_TXA;S_CR;S_TXA", cmp_text=1),
+        sk("t_cc2_rollup", "S_RU3;S_TXA;S_MRX;S_CR;S_TXS", ch=1),
+        sk("t_cc4_rollup_284", "S_RU2;S_TXA;S_CR;S_TXA", ch=3),
+        sk("t_t3_text", "S_RTD;S_TXA;S_CR;S_TXS;S_BS", ch=2, cmp_text=1, LINE_NO=335),
+    ]
     obs = []
-    for name, d in seqs:
+    for name, d in seqs + seqs_t:
         dd = dict(defs); dd.update(d)
-        obs.append(Ob("seq_" + name, func="h_cc_seq", defines=dd,
+        obs.append(Ob("seq_" + name, func="h_cc_seq", defines=dd, tier=("thorough" if name.startswith("t_") else "quick"),
                       desc="SEQ skeleton %s from the reset state: after every step at which the standard makes content visible the displayed page "
                            "(the one vbi_fetch_cc_page copies) equals the reference EIA-608 display memory cell by cell (character, colour, underline, italic, "
                            "flash, background, opacity; a solid space is tolerated only next to a displayable character), a caption event was raised when it changed, "
@@ -95,27 +108,33 @@ def obligations(tier, seed):
                       bounds="skeleton fixes the command class of every step; symbolic: second byte of text pairs (8 bits), PAC attribute/indent/underline bits, "
                              "mid-row / special character code, where the step kind says so",
                       outside="sequences not matching a skeleton of the grid; other channel of the same field interleaved",
-                      assumes=ASSUMES, reach=["end", "compared"], timeout=400, vin_size=64, **common))
+                      assumes=ASSUMES, reach=["end", "compared"], timeout=(900 if name.startswith("t_") else 400), vin_size=64, **common))
     # ---- vbi_fetch_cc_page contract (composition step: the SEQ obligations read the page fetch copies) ----
     fg_t = [dict(PGNO=p, HID=h, CC_BUILD_MASK="0x%x" % (1 << ((p - 1) & 7))) for p in (0, 1, 2, 4, 5, 8, 9) for h in (0, 1)]
     fg_q = [dict(PGNO=p, HID=h, CC_BUILD_MASK="0x%x" % (1 << ((p - 1) & 7))) for (p, h) in ((1, 0), (1, 1), (6, 1), (9, 0), (0, 1))]
     obs.append(Ob("fetch_contract", func="h_cc_fetch", defines=dict(defs), grid=fg_t, quick_grid=fg_q,
                   desc="vbi_fetch_cc_page(pgno): TRUE iff 1 <= pgno <= 8; the page handed out is pg[hidden ^ 1] of channel pgno - 1 (header, dirty fields, an "
-                       "arbitrary cell at an arbitrary index 0..1055), the source keeps its cells, its dirty fields are reset to 'nothing to redraw', the other "
+                       "all 1056 cells), the source keeps its cells, its dirty fields are reset to 'nothing to redraw', the other "
                        "page is untouched, the mutex is released; FALSE leaves the output and the decoder untouched.  Also pins the 64-bit word view of vbi_char "
                        "which the SEQ comparisons use (cell_layout)",
-                  encodes=["vbi_fetch_cc_page"], bounds="pgno and hidden enumerated on the grid; cell index, cell contents, dirty fields, reset flag symbolic",
-                  assumes=[], reach=["end"], timeout=200, vin_size=64, **common))
+                  encodes=["vbi_fetch_cc_page"], bounds="pgno and hidden enumerated on the grid; all 2 x 1056 cells of the channel, dirty fields, reset flag symbolic",
+                  assumes=[], reach=["end"], timeout=200, vin_size=17000, **common))
     # ---- field 2 routing caption / XDS ----
-    rb_t = [odd(v) for v in (0x00, 0x01, 0x02, 0x0E, 0x0F, 0x10, 0x14, 0x1C, 0x1F, 0x20, 0x41, 0x7F)] + [odd(0x41) ^ 0x80, odd(0x05) ^ 0x80, odd(0x14) ^ 0x80]
-    rb_q = [odd(v) for v in (0x00, 0x01, 0x0F, 0x14, 0x41)] + [odd(0x41) ^ 0x80]
-    obs.append(Ob("field2_routing", func="h_cc_route", defines=dict(defs, CC_BUILD_MASK="0x04"),
-                  grid=[dict(RB1="0x%02x" % v) for v in rb_t], quick_grid=[dict(RB1="0x%02x" % v) for v in rb_q], remove_bodies=["xds_separator"],
-                  desc="line 284 (NTSC field 2), CC3 in roll-up mode, cc.xds symbolic, one pair with literal first byte RB1 and symbolic second byte: "
+    def rb(b1, b2=None):
+        d = dict(RB1="0x%02x" % b1)
+        if b2 is not None:
+            d["RB2"] = "0x%02x" % b2
+        return d
+    rb_q = [rb(0x80), rb(odd(0x01), odd(0x01)), rb(odd(0x0F)), rb(odd(0x14), odd(0x20)), rb(odd(0x41)), rb(odd(0x41) ^ 0x80)]
+    rb_t = rb_q + [rb(odd(0x02), odd(0x05)), rb(odd(0x0E), odd(0x10)), rb(odd(0x07), odd(0x40)), rb(odd(0x14), odd(0x2C)), rb(odd(0x11), odd(0x2E)),
+                   rb(odd(0x20)), rb(odd(0x7F)), rb(odd(0x05) ^ 0x80), rb(odd(0x14) ^ 0x80)]
+    obs.append(Ob("field2_routing", func="h_cc_route", defines=dict(defs, CC_BUILD_MASK="0x04"), grid=rb_t, quick_grid=rb_q,
+                  desc="line 284 (NTSC field 2), CC3 in roll-up mode, cc.xds symbolic, no XDS packet in progress, one pair with literal first byte RB1 (second byte "
+                       "literal where the decoder dispatches on it, else symbolic): "
                        "0x00 no effect; 0x01-0x0E start/continue XDS (cc.xds = 1, caption untouched); 0x0F ends it; 0x10-0x1F end XDS mode and are executed as "
                        "caption control codes; >= 0x20 or parity error follow cc.xds: XDS payload (caption untouched) or caption text (two cells stored)",
-                  encodes=["vbi_decode_caption", "caption_command", "put_char", "word_break"], bounds="one pair; first byte on the grid, second byte symbolic",
-                  assumes=["xds_separator has no effect on the caption state (body removed: goto-instrument --remove-function-body; C09 covers the XDS demultiplexer)"],
+                  encodes=["vbi_decode_caption", "xds_separator", "caption_command", "put_char", "word_break"], bounds="one pair; first byte (and XDS class/type, control code) on the grid",
+                  assumes=["cc.curr_sp == NULL (no XDS packet in progress)"],
                   reach=["end"], timeout=200, vin_size=64, **common))
     # ---- ITV separator ----
     obs.append(Ob("itv_separator_step", func="h_cc_itv", defines=dict(defs, CC_BUILD_MASK="0x0"),
@@ -149,10 +168,15 @@ def obligations(tier, seed):
     cd, sd = dict(classes), dict(states)
     def inst(c, st):
         d = dict(C08_CLS=c, C08_ST=st); d.update(cd[c]); d.update(sd[st]); return d
-    inv_t = [inst(c, st) for c, _ in classes for st, _ in states]
+    def expand(d):            # DER loops from the cursor column: column on the grid for this class
+        if d["C08_CLS"] in ("misc_der",):
+            return [dict(d, ICOL=c) for c in (1, 17, 33)]
+        return [d]
+    inv_t = [e for c, _ in classes for st, _ in states for e in expand(inst(c, st))]
     inv_q = [inst(c, st) for c, st in (("misc_cr", "roll2_r14"), ("misc_cr", "text_r14"), ("misc_cr", "pop_r0_win0"), ("pac_r15_ind28", "roll4_r3"),
-                                       ("text_A", "pop_r0_win0"), ("text_sp", "roll2_r14"), ("misc_der", "paint_r7"), ("misc_bs", "pop_r14"),
+                                       ("text_A", "pop_r0_win0"), ("text_sp", "roll2_r14"), ("misc_bs", "pop_r14"),
                                        ("misc_eoc", "roll4_r3"), ("misc_ru4", "pop_r14"), ("misc_tr", "paint_r7"), ("special_ts", "text_r0"), ("tab3", "pop_r14"))]
+    inv_q += [dict(inst("misc_der", "paint_r7"), ICOL=c) for c in (1, 33)]
     obs.append(Ob("inv_step", harness="h_c08_inv.c", func="h_cc_inv", defines=dict(defs, CC_BUILD_MASK="0x11"), grid=inv_t, quick_grid=inv_q,
                   desc="INV-STEP: one byte pair of class CLS (first byte / control code literal, second byte of text pairs symbolic) from an ARBITRARY state of the "
                        "channel (all 2 x 510 cells, column and word start 1 <= col1 <= col <= 33, pen, null counter, repetition memory symbolic; mode, hidden page, "
